@@ -1,34 +1,161 @@
 (* C03 — decision tables return what their hit policy prescribes: property theorems only.
-   Proofs are in C03/Proofs.v; the models (Spec: sat, hits, dt_spec; ImplModel: in_test, matching,
-   dt_impl = decision_table.rs after the three fix commits, dt_impl_orig = the pinned commit) in C03/Model.v. *)
+   Proofs are in C03/Proofs.v and C03/Audit.v; the models in C03/Model.v (Spec: sat, hits, dt_spec; ImplModel: in_test, matching,
+   dt_impl = dt_impl_gen false false = decision_table.rs + builders.rs AS THEY ARE NOW, dt_impl_orig = the pinned commit,
+   dt_impl_nl = the code if the literal null were handled as a unary test) and C03/Spec2.v (the code's answer for an entry said
+   with the Spec's sat_item; `precedes`, the order of output-value priority as a relation).
+   Hypotheses used below, all boolean and all evaluated by the check for every generated case:
+     wf t          at least one output clause, every rule has one entry per input and per output clause, several output clauses
+                   are named with distinct names;
+     in_scope t xs no literal `null` in an input entry, in allowed input values or in output values (known finding
+                   null-literal-entry) and one input value per input clause.  NOTHING is asked of the input values: null inputs and
+                   values of another kind than the literals of an entry are inside;
+     agreeing t xs weaker than in_scope: null literals may occur where the evaluation of (t, xs) is not affected by them. *)
 From Coq Require Import List ZArith NArith Bool Permutation Sorted.
-From DV Require Import C03.Model C03.Proofs C03.LinkC01.
+From DV Require Import C03.Model C03.Proofs C03.Spec2 C03.Audit C03.LinkC01.
 Import ListNotations.
 
-(* headline: for every well-shaped table and every well-typed input tuple the code's algorithm returns
-   what the declarative hit-policy Spec prescribes (all 11 policies, any number of inputs, outputs, rules) *)
-Theorem C03_policy_refines : forall t xs, wf t = true -> typed t xs = true -> dt_impl t xs = dt_spec t xs.
+(* headline: for every well-shaped table without null literal and EVERY input tuple (one value per input clause; null values,
+   values of any kind) the algorithm of the code returns what the declarative hit-policy Spec prescribes
+   (all 11 policies, any number of inputs, outputs, rules) *)
+Theorem C03_policy_refines : forall t xs, wf t = true -> in_scope t xs = true -> dt_impl t xs = dt_spec t xs.
 Proof. exact policy_refines. Qed.
 
-(* the three-valued evaluation of an input entry decides satisfaction *)
-Theorem C03_entry_satisfied : forall x u, value_typed x u = true -> in_test false true in_neg_list x u = of_bool (sat x u).
+(* the same under the weakest condition we state: every entry that the evaluation of (t, xs) looks at is answered as the Spec
+   answers it (C03_entry_agrees_iff says exactly when that is), no null among the output values *)
+Theorem C03_policy_refines_agreeing : forall t xs, wf t = true -> agreeing t xs = true -> dt_impl t xs = dt_spec t xs.
+Proof. exact policy_refines_agreeing. Qed.
+
+Theorem C03_in_scope_agreeing : forall t xs, wf t = true -> in_scope t xs = true -> agreeing t xs = true.
+Proof. exact in_scope_agreeing. Qed.
+
+(* outside the hypotheses the two differ (witnesses): a null literal that is reached; more values than input clauses *)
+Theorem C03_scope_hypotheses_needed_refuted :
+  (wf t_nullcut = true /\ in_scope t_nullcut [ANum 1%Z] = false /\ agreeing t_nullcut [ANum 1%Z] = true /\
+   dt_impl t_nullcut [ANum 1%Z] = OOne (RAtom (ANum 7))) /\
+  (agreeing t_nullcut [ANum 2%Z] = false /\ dt_spec t_nullcut [ANum 2%Z] = OOne (RAtom (ANum 7)) /\ dt_impl t_nullcut [ANum 2%Z] = onull /\
+   agreeing t_nullcut [ANull] = false /\ dt_spec t_nullcut [ANull] = OOne (RAtom (ANum 7)) /\ dt_impl t_nullcut [ANull] = onull) /\
+  (agreeing t_nullcut [ANum 3%Z] = true /\ dt_impl t_nullcut [ANum 3%Z] = onull /\ dt_spec t_nullcut [ANum 3%Z] = onull) /\
+  (wf t_dash = true /\ arity_ok t_dash [ANum 1%Z; ANum 2%Z] = false /\
+   dt_impl t_dash [ANum 1%Z; ANum 2%Z] = OOne (RAtom (ANum 7)) /\ dt_spec t_dash [ANum 1%Z; ANum 2%Z] = onull).
+Proof. exact scope_hypotheses_needed. Qed.
+
+(* ---------------------------------------------------------------- input entries: the code as it is *)
+(* an entry without the literal null (`-`, literals, comparisons, intervals, lists of them, not(...)): the three-valued evaluation
+   of the current code decides satisfaction, for EVERY value — null and values of another kind included; it never answers null *)
+Theorem C03_entry_satisfied : forall x u, utest_nonnull u = true ->
+  in_test false false (in_neg_list_gen false) x u = of_bool (sat x u).
+Proof. exact entry_satisfied. Qed.
+
+(* EVERY entry, the literal null included: the code reads a list of tests up to its first null literal — true when a test before
+   it is satisfied, else false when there is no null literal and null when there is one; not(...) negates true / false *)
+Theorem C03_entry_code_exact : forall x u, in_test false false (in_neg_list_gen false) x u = code_in_test x u.
+Proof. exact in_test_code_exact. Qed.
+
+(* exactly on which (value, entry) pairs `the rule's entry matches` is what the Spec says *)
+Theorem C03_entry_agrees_iff : forall x u,
+  is_tt (in_test false false (in_neg_list_gen false) x u) = sat x u <-> utest_agrees x u = true.
+Proof. exact entry_agrees_iff. Qed.
+
+(* what `satisfied` means (Spec), case by case: `-`; a literal (the equal value); a comparison / an interval (only values of the
+   kind of the number / string endpoints); a list (one of its tests); not(...) *)
+Theorem C03_sat_cases : forall x,
+  sat x UAny = true /\
+  (forall a, sat x (UPos [ILit a]) = true <-> x = a) /\
+  (forall o a, sat x (UPos [ICmp o a]) = true <->
+     (exists v w, x = ANum v /\ a = ANum w /\ match o with CLt => v < w | CLe => v <= w | CGt => v > w | CGe => v >= w end)%Z \/
+     (exists v w, x = AStr v /\ a = AStr w /\ match o with CLt => v < w | CLe => v <= w | CGt => v > w | CGe => v >= w end)%N) /\
+  (forall lo lc hi hc, sat x (UPos [IRange lo lc hi hc]) = true <->
+     (exists v l h, x = ANum v /\ lo = ANum l /\ hi = ANum h /\ (if lc then l <= v else l < v) /\ (if hc then v <= h else v < h))%Z \/
+     (exists v l h, x = AStr v /\ lo = AStr l /\ hi = AStr h /\ (if lc then l <= v else l < v) /\ (if hc then v <= h else v < h))%N) /\
+  (forall l, sat x (UPos l) = true <-> exists i, In i l /\ sat x (UPos [i]) = true) /\
+  (forall l, sat x (UNeg l) = negb (sat x (UPos l))).
+Proof. exact sat_cases. Qed.
+
+(* a null input value satisfies `-` and the literal null, no other test; hence every not(...) without the literal null
+   (interpretive choice shared by Spec and code: not(< 5) holds of null because `< 5` does not) *)
+Theorem C03_sat_null_input :
+  sat ANull UAny = true /\
+  (forall i, sat_item ANull i = negb (item_nonnull i)) /\
+  (forall l, sat ANull (UPos l) = negb (forallb item_nonnull l)) /\
+  (forall l, sat ANull (UNeg l) = forallb item_nonnull l).
+Proof. exact sat_null_input. Qed.
+
+(* KNOWN FINDING null-literal-entry (known_findings.txt), a theorem about the model of the CURRENT code: the entries `null` and
+   not(null) match no value; a list of tests, negated or not, none of whose tests before its first null literal is satisfied is
+   answered with null, so the rule does not match whatever follows the null literal *)
+Theorem C03_null_literal_entry_never_matches :
+  (forall x, in_test false false (in_neg_list_gen false) x (UPos [ILit ANull]) = TN) /\
+  (forall x, in_test false false (in_neg_list_gen false) x (UNeg [ILit ANull]) = TN) /\
+  (forall x l1 l2, existsb (sat_item x) l1 = false ->
+     in_test false false (in_neg_list_gen false) x (UPos (l1 ++ ILit ANull :: l2)) = TN /\
+     in_test false false (in_neg_list_gen false) x (UNeg (l1 ++ ILit ANull :: l2)) = TN) /\
+  (forall x ic l1 l2 xs ics es, existsb (sat_item x) l1 = false ->
+     rule_matches false false (x :: xs) (ic :: ics) (UPos (l1 ++ ILit ANull :: l2) :: es) = false /\
+     rule_matches false false (x :: xs) (ic :: ics) (UNeg (l1 ++ ILit ANull :: l2) :: es) = false).
+Proof. exact null_literal_entry_never_matches. Qed.
+
+(* ... the intended behaviour, i.e. the Spec the finding violates: `null` is satisfied by the null value and only by it,
+   not(null) by every other value, and the tests behind a null literal count *)
+Theorem C03_null_literal_spec :
+  (forall x, sat x (UPos [ILit ANull]) = true <-> x = ANull) /\
+  (forall x, sat x (UNeg [ILit ANull]) = true <-> x <> ANull) /\
+  (forall x l1 l2, sat x (UPos (l1 ++ ILit ANull :: l2)) = existsb (sat_item x) l1 || atom_eqb x ANull || existsb (sat_item x) l2).
+Proof. exact null_literal_spec. Qed.
+
+(* ... the witness at table level (run against the real code by the check), and the repaired algorithm *)
+Theorem C03_null_literal_known :
+  wf t_nulllit = true /\ arity_ok t_nulllit [ANull] = true /\ arity_ok t_nulllit [ANum 1%Z] = true /\ no_null_lits t_nulllit = false /\
+  dt_spec t_nulllit [ANull] = OMany [RAtom (ANum 7); RAtom (ANum 9)] /\ dt_impl t_nulllit [ANull] = onull /\
+  dt_spec t_nulllit [ANum 1%Z] = OMany [RAtom (ANum 8); RAtom (ANum 9)] /\ dt_impl t_nulllit [ANum 1%Z] = OMany [RAtom (ANum 9)] /\
+  dt_impl_nl t_nulllit [ANull] = dt_spec t_nulllit [ANull] /\ dt_impl_nl t_nulllit [ANum 1%Z] = dt_spec t_nulllit [ANum 1%Z].
+Proof. exact null_literal_known. Qed.
+
+(* with the literal null handled as a test (a repair that was NOT made) both hypotheses about null disappear *)
+Theorem C03_entry_satisfied_if_null_literal_handled : forall x u, in_test false true in_neg_list x u = of_bool (sat x u).
 Proof. exact in_test_sat. Qed.
 
+Theorem C03_policy_refines_if_null_literal_handled : forall t xs, wf t = true -> length xs = length (t_inputs t) ->
+  dt_impl_nl t xs = dt_spec t xs.
+Proof. exact policy_refines_nl. Qed.
+
 (* the rules the code collects are exactly the rules whose every entry is satisfied, in rule order *)
-Theorem C03_matching_exact : forall t xs, typed t xs = true ->
+Theorem C03_matching_exact : forall t xs, wf t = true -> in_scope t xs = true ->
   matching false false t xs = map (eval_rule false false t xs) (filter (rule_sat t xs) (t_rules t)).
 Proof. exact matching_exact. Qed.
 
-Theorem C03_first_is_least_index : forall t xs, wf t = true -> typed t xs = true -> t_policy t = PFirst ->
+(* ---------------------------------------------------------------- the hit policies, sentence by sentence *)
+Theorem C03_first_is_least_index : forall t xs, wf t = true -> in_scope t xs = true -> t_policy t = PFirst ->
   forall h hs, hits t xs = h :: hs ->
   dt_impl t xs = OOne (spec_out t h) /\
   exists before after, t_rules t = before ++ h :: after /\ rule_sat t xs h = true /\ forall r, In r before -> rule_sat t xs r = false.
 Proof. exact first_is_least_index. Qed.
 
-Theorem C03_collect_is_filter_map_in_rule_order : forall t xs, wf t = true -> typed t xs = true ->
+Theorem C03_collect_is_filter_map_in_rule_order : forall t xs, wf t = true -> in_scope t xs = true ->
   t_policy t = PRuleOrder \/ t_policy t = PCollect AList -> hits t xs <> [] ->
   dt_impl t xs = OMany (map (spec_out t) (filter (rule_sat t xs) (t_rules t))).
 Proof. exact collect_in_rule_order. Qed.
+
+(* the comparator of the Spec (cmp_keys on the ranks) is the relation `precedes`: lexicographic over the output clauses, per clause
+   the position of the output in the clause's output values, an unlisted output after every listed one *)
+Theorem C03_precedes_is_lexicographic : forall a b, cmp_keys a b = Lt <-> lex_lt a b.
+Proof. exact precedes_iff_lt. Qed.
+
+(* PRIORITY: the output of the matching rule that precedes every matching rule before it and is preceded by no matching rule
+   after it (no matching output has priority over it; among equals the first rule); there is exactly one such rule *)
+Theorem C03_priority_spec : forall t xs, wf t = true -> in_scope t xs = true -> t_policy t = PPriority -> hits t xs <> [] ->
+  exists w, priority_winner t (hits t xs) w /\ dt_impl t xs = OOne (spec_out t w).
+Proof. exact priority_spec. Qed.
+
+Theorem C03_priority_winner_unique : forall t hs w1 w2, priority_winner t hs w1 -> priority_winner t hs w2 -> w1 = w2.
+Proof. exact priority_winner_unique. Qed.
+
+(* OUTPUT ORDER: the matching outputs rearranged so that none stands behind one it precedes; outputs of equal priority keep
+   their rule order *)
+Theorem C03_output_order_spec : forall t xs, wf t = true -> in_scope t xs = true -> t_policy t = POutputOrder -> hits t xs <> [] ->
+  exists l, dt_impl t xs = OMany (map (spec_out t) l) /\ Permutation (hits t xs) l /\
+    StronglySorted (fun x y => ~ precedes t y x) l /\
+    forall k, filter (fun r => key_eqb (key t r) k) l = filter (fun r => key_eqb (key t r) k) (hits t xs).
+Proof. exact output_order_spec. Qed.
 
 Theorem C03_output_order_perm_sorted_stable : forall t l,
   Permutation l (by_priority t l) /\
@@ -36,16 +163,16 @@ Theorem C03_output_order_perm_sorted_stable : forall t l,
   forall k, filter (fun r => key_eqb (key t r) k) (by_priority t l) = filter (fun r => key_eqb (key t r) k) l.
 Proof. exact output_order_perm_sorted_stable. Qed.
 
-Theorem C03_output_order_result : forall t xs, wf t = true -> typed t xs = true -> t_policy t = POutputOrder -> hits t xs <> [] ->
+Theorem C03_output_order_result : forall t xs, wf t = true -> in_scope t xs = true -> t_policy t = POutputOrder -> hits t xs <> [] ->
   dt_impl t xs = OMany (map (spec_out t) (by_priority t (hits t xs))).
 Proof. exact output_order_result. Qed.
 
-Theorem C03_priority_result : forall t xs, wf t = true -> typed t xs = true -> t_policy t = PPriority ->
+Theorem C03_priority_result : forall t xs, wf t = true -> in_scope t xs = true -> t_policy t = PPriority ->
   forall h hs, hits t xs = h :: hs ->
   exists top rest, by_priority t (h :: hs) = top :: rest /\ dt_impl t xs = OOne (spec_out t top).
 Proof. exact priority_result. Qed.
 
-Theorem C03_unique_any : forall t xs, wf t = true -> typed t xs = true ->
+Theorem C03_unique_any : forall t xs, wf t = true -> in_scope t xs = true ->
   (t_policy t = PUnique ->
      (forall h, hits t xs = [h] -> dt_impl t xs = OOne (spec_out t h)) /\
      (2 <= length (hits t xs) -> dt_impl t xs = onull)) /\
@@ -54,26 +181,45 @@ Theorem C03_unique_any : forall t xs, wf t = true -> typed t xs = true ->
      ((exists r, In r hs /\ spec_out t r <> spec_out t h) -> dt_impl t xs = onull)).
 Proof. exact unique_any. Qed.
 
-Theorem C03_count_length : forall t xs, wf t = true -> typed t xs = true -> t_policy t = PCollect ACount -> hits t xs <> [] ->
+Theorem C03_count_length : forall t xs, wf t = true -> in_scope t xs = true -> t_policy t = PCollect ACount -> hits t xs <> [] ->
   dt_impl t xs = OOne (RAtom (ANum (Z.of_nat (length (filter (rule_sat t xs) (t_rules t)))))).
 Proof. exact count_length. Qed.
 
-Theorem C03_aggregates : forall t xs, wf t = true -> typed t xs = true -> length (t_outputs t) = 1 -> hits t xs <> [] ->
+Theorem C03_aggregates : forall t xs, wf t = true -> in_scope t xs = true -> length (t_outputs t) = 1 -> hits t xs <> [] ->
   (t_policy t = PCollect ASum -> dt_impl t xs = OOne (RAtom (spec_sum (map (single_out t) (hits t xs))))) /\
   (t_policy t = PCollect AMin -> dt_impl t xs = OOne (RAtom (spec_min (map (single_out t) (hits t xs))))) /\
   (t_policy t = PCollect AMax -> dt_impl t xs = OOne (RAtom (spec_max (map (single_out t) (hits t xs))))).
 Proof. exact aggregates. Qed.
 
-Theorem C03_no_hit_default : forall t xs, wf t = true -> typed t xs = true -> hits t xs = [] ->
+Theorem C03_no_hit_default : forall t xs, wf t = true -> in_scope t xs = true -> hits t xs = [] ->
   (forall a, t_policy t <> PCollect a \/ length (t_outputs t) = 1 \/ a = AList \/ a = ACount) ->
   dt_impl t xs = OOne (spec_default t).
 Proof. exact no_hit_default. Qed.
+
+(* the default in the words of the property: the default output entry, null when none is defined; several output clauses: the
+   context of the default entries keyed by the component names (null for a clause without one), null when no clause defines one *)
+Theorem C03_default_spec : forall t, wf t = true ->
+  (forall oc, t_outputs t = [oc] -> spec_default t = RAtom (match o_default oc with Some d => d | None => ANull end)) /\
+  (1 < length (t_outputs t) -> (forall oc, In oc (t_outputs t) -> o_default oc = None) -> spec_default t = RAtom ANull) /\
+  (1 < length (t_outputs t) -> (exists oc, In oc (t_outputs t) /\ o_default oc <> None) -> exists es, spec_default t = RCtx es /\
+     forall j oc k, nth_error (t_outputs t) j = Some oc -> o_name oc = Some k ->
+       ctx_get k es = Some (match o_default oc with Some d => d | None => ANull end)).
+Proof. exact default_spec_words. Qed.
+
+(* the output of one rule: the single (filtered) output entry, or — several output clauses — the context whose component named
+   after a clause is that clause's (filtered) output entry; an entry outside the clause's output values is null *)
+Theorem C03_rule_output_spec : forall t r, wf t = true -> In r (t_rules t) ->
+  (forall oc, t_outputs t = [oc] -> spec_out t r = RAtom (out_filter (o_values oc) (hd ANull (r_out r)))) /\
+  (1 < length (t_outputs t) -> exists es, spec_out t r = RCtx es /\
+     forall j oc a k, nth_error (t_outputs t) j = Some oc -> nth_error (r_out r) j = Some a -> o_name oc = Some k ->
+       ctx_get k es = Some (out_filter (o_values oc) a)).
+Proof. exact rule_output_spec. Qed.
 
 Theorem C03_compound_keyed_by_names : forall names vals k v,
   NoDup names -> length names = length vals -> In (k, v) (combine names vals) -> ctx_get k (mk_ctx names vals) = Some v.
 Proof. exact compound_keyed_by_names. Qed.
 
-Theorem C03_no_crash_if_well_shaped : forall t xs, wf t = true -> typed t xs = true ->
+Theorem C03_no_crash_if_well_shaped : forall t xs, wf t = true -> in_scope t xs = true ->
   dt_impl t xs <> OCrash /\ dt_impl t xs <> OBuildCrash.
 Proof. exact no_crash_if_well_shaped. Qed.
 
@@ -83,46 +229,42 @@ Proof. exact crash_if_ill_shaped. Qed.
 
 (* the code at the pinned commit violated the property (repaired by fix: commits in /repo) *)
 Theorem C03_orig_negated_interval_refuted :
-  wf t_neg = true /\ typed t_neg [ANum 9%Z] = true /\
+  wf t_neg = true /\ in_scope t_neg [ANum 9%Z] = true /\
   dt_spec t_neg [ANum 9%Z] = OOne (RAtom (ANum 7)) /\ dt_impl_orig t_neg [ANum 9%Z] = onull /\ dt_impl t_neg [ANum 9%Z] = OOne (RAtom (ANum 7)).
 Proof. exact orig_negated_interval_refuted. Qed.
 
 Theorem C03_orig_priority_flattened_refuted :
-  wf t_prio = true /\ typed t_prio [ANum 0%Z] = true /\
+  wf t_prio = true /\ in_scope t_prio [ANum 0%Z] = true /\
   dt_spec t_prio [ANum 0%Z] = OMany [RCtx [(0%N, ANum 1); (1%N, ANum 2)]; RCtx [(0%N, ANum 1); (1%N, ANum 1)]] /\
   dt_impl_orig t_prio [ANum 0%Z] = OMany [RCtx [(0%N, ANum 1); (1%N, ANum 1)]; RCtx [(0%N, ANum 1); (1%N, ANum 2)]] /\
   dt_impl t_prio [ANum 0%Z] = dt_spec t_prio [ANum 0%Z].
 Proof. exact orig_priority_flattened_refuted. Qed.
 
 Theorem C03_orig_default_compound_refuted :
-  wf t_dflt = true /\ typed t_dflt [ANum 0%Z] = true /\ hits t_dflt [ANum 0%Z] = [] /\
+  wf t_dflt = true /\ in_scope t_dflt [ANum 0%Z] = true /\ hits t_dflt [ANum 0%Z] = [] /\
   dt_spec t_dflt [ANum 0%Z] = OOne (RCtx [(0%N, AStr 3); (1%N, AStr 5)]) /\
   dt_impl_orig t_dflt [ANum 0%Z] = onull /\ dt_impl t_dflt [ANum 0%Z] = dt_spec t_dflt [ANum 0%Z].
 Proof. exact orig_default_compound_refuted. Qed.
 
 Theorem C03_orig_dash_null_refuted :
-  wf t_dash = true /\ typed t_dash [ANull] = true /\
+  wf t_dash = true /\ in_scope t_dash [ANull] = true /\
   dt_spec t_dash [ANull] = OOne (RAtom (ANum 7)) /\ dt_impl_orig t_dash [ANull] = onull /\ dt_impl t_dash [ANull] = OOne (RAtom (ANum 7)).
 Proof. exact orig_dash_null_refuted. Qed.
 
-(* KNOWN FINDING null-literal-entry (listed in known_findings.txt): the literal null is not handled as a unary test
-   (an input entry `null` never matches, a list of tests is cut short at a null item).  C03_policy_refines therefore
-   excludes tables with null literals (no_null_lits, part of `typed`); with the literal handled the refinement holds
-   for them too (dt_impl_nl), and the witness shows the difference. *)
-Theorem C03_policy_refines_if_null_literal_handled : forall t xs, wf t = true -> typed_nl t xs = true -> dt_impl_nl t xs = dt_spec t xs.
-Proof. exact policy_refines_nl. Qed.
-
-Theorem C03_null_literal_known :
-  wf t_nulllit = true /\ typed_nl t_nulllit [ANull] = true /\ typed_nl t_nulllit [ANum 1%Z] = true /\ no_null_lits t_nulllit = false /\
-  dt_spec t_nulllit [ANull] = OMany [RAtom (ANum 7); RAtom (ANum 9)] /\ dt_impl t_nulllit [ANull] = onull /\
-  dt_spec t_nulllit [ANum 1%Z] = OMany [RAtom (ANum 8); RAtom (ANum 9)] /\ dt_impl t_nulllit [ANum 1%Z] = OMany [RAtom (ANum 9)] /\
-  dt_impl_nl t_nulllit [ANull] = dt_spec t_nulllit [ANull] /\ dt_impl_nl t_nulllit [ANum 1%Z] = dt_spec t_nulllit [ANum 1%Z].
-Proof. exact null_literal_known. Qed.
-
 Example C03_nonvacuous :
-  wf t_ex = true /\ typed t_ex [ANum 5%Z; AStr 2] = true /\ length (hits t_ex [ANum 5%Z; AStr 2]) = 3 /\
+  wf t_ex = true /\ in_scope t_ex [ANum 5%Z; AStr 2] = true /\ length (hits t_ex [ANum 5%Z; AStr 2]) = 3 /\
   dt_impl t_ex [ANum 5%Z; AStr 2] = OOne (RCtx [(0%N, AStr 5); (1%N, ANum 3)]).
 Proof. exact nonvacuous. Qed.
+
+(* the widened scope is inhabited by what the former hypothesis `typed` excluded: a null input value and a value of another kind
+   than the literals, on the same table (rule 2's first entry is a not(...) over an interval: satisfied by null and by a string) *)
+Example C03_nonvacuous_untyped :
+  in_scope t_ex [ANull; AStr 2] = true /\ typed t_ex [ANull; AStr 2] = false /\ length (hits t_ex [ANull; AStr 2]) = 1 /\
+  dt_impl t_ex [ANull; AStr 2] = dt_spec t_ex [ANull; AStr 2] /\ dt_impl t_ex [ANull; AStr 2] = OOne (RCtx [(0%N, AStr 4); (1%N, ANum 2)]) /\
+  in_scope t_ex [AStr 7; AStr 2] = true /\ typed t_ex [AStr 7; AStr 2] = false /\
+  dt_impl t_ex [AStr 7; AStr 2] = OOne (RCtx [(0%N, AStr 4); (1%N, ANum 2)]) /\
+  priority_winner t_ex (hits t_ex [ANum 5%Z; AStr 2]) (nth 2 (t_rules t_ex) (Build_rule [] [])).
+Proof. exact nonvacuous_untyped. Qed.
 
 (* LINK TO C01 (C03/LinkC01.v): the unary-test evaluation of this model IS the FEEL `in` operator of the evaluator model
    coq/C01/Syntax.v (in_tests_eval = eval_in_list over Value::ExpressionList, written independently from the same
@@ -169,10 +311,26 @@ Example C03_matching_is_feel_in_nonvacuous :
 Proof. exact (conj nenc0_embedding (conj senc0_embedding (conj link_nonvacuous single_test_null_differs))). Qed.
 
 Print Assumptions C03_policy_refines.
+Print Assumptions C03_policy_refines_agreeing.
+Print Assumptions C03_in_scope_agreeing.
+Print Assumptions C03_scope_hypotheses_needed_refuted.
 Print Assumptions C03_entry_satisfied.
+Print Assumptions C03_entry_code_exact.
+Print Assumptions C03_entry_agrees_iff.
+Print Assumptions C03_sat_cases.
+Print Assumptions C03_sat_null_input.
+Print Assumptions C03_null_literal_entry_never_matches.
+Print Assumptions C03_null_literal_spec.
+Print Assumptions C03_null_literal_known.
+Print Assumptions C03_entry_satisfied_if_null_literal_handled.
+Print Assumptions C03_policy_refines_if_null_literal_handled.
 Print Assumptions C03_matching_exact.
 Print Assumptions C03_first_is_least_index.
 Print Assumptions C03_collect_is_filter_map_in_rule_order.
+Print Assumptions C03_precedes_is_lexicographic.
+Print Assumptions C03_priority_spec.
+Print Assumptions C03_priority_winner_unique.
+Print Assumptions C03_output_order_spec.
 Print Assumptions C03_output_order_perm_sorted_stable.
 Print Assumptions C03_output_order_result.
 Print Assumptions C03_priority_result.
@@ -180,6 +338,8 @@ Print Assumptions C03_unique_any.
 Print Assumptions C03_count_length.
 Print Assumptions C03_aggregates.
 Print Assumptions C03_no_hit_default.
+Print Assumptions C03_default_spec.
+Print Assumptions C03_rule_output_spec.
 Print Assumptions C03_compound_keyed_by_names.
 Print Assumptions C03_no_crash_if_well_shaped.
 Print Assumptions C03_crash_if_ill_shaped.
@@ -187,9 +347,8 @@ Print Assumptions C03_orig_negated_interval_refuted.
 Print Assumptions C03_orig_priority_flattened_refuted.
 Print Assumptions C03_orig_default_compound_refuted.
 Print Assumptions C03_orig_dash_null_refuted.
-Print Assumptions C03_policy_refines_if_null_literal_handled.
-Print Assumptions C03_null_literal_known.
 Print Assumptions C03_nonvacuous.
+Print Assumptions C03_nonvacuous_untyped.
 Print Assumptions C03_matching_is_feel_in.
 Print Assumptions C03_rule_matches_is_feel_in.
 Print Assumptions C03_feel_in_expression.
